@@ -122,7 +122,7 @@ def o1_ban(chk, prog):
 
 
 # ------------------------------------------------------------------------------------------------ O2 try_unban
-def o2_try_unban(chk, prog, roles, banned, target):
+def o2_try_unban(chk, prog, roles, banned, target, prop='C07'):
     name = 'O2-try_unban-%s-banned%s-target%d' % (''.join('PR'[r] for r in roles), ''.join(map(str, banned)) or 'none', target)
     ob = chk.begin(name, 'ConnectionPool::try_unban(server %d) in a shard with roles %s and servers %r banned (ban reasons, timestamps, admin '
                    'durations, ban_time and the clock symbolic): primary -> usable; all replicas banned -> every ban lifted; ban expired -> '
@@ -172,7 +172,7 @@ def o2_try_unban(chk, prog, roles, banned, target):
                 return v - (1 << 64) if v >> 63 else v
             bj = [{'idx': i, 'reason': REASONS[mm.eval(meta[i][0].z(), True).as_long()], 'duration': evs(meta[i][1]),
                    'age': (evs(now) - evs(meta[i][2])) if now is not None else 0} for i in banned]
-            chk.report(ob, 'C07/O2/try_unban/%s' % ('primary' if roles[target] == 0 else ('all-banned' if len(banned) == nrep else 'expiry')),
+            chk.report(ob, prop + '/O2/try_unban/%s' % ('primary' if roles[target] == 0 else ('all-banned' if len(banned) == nrep else 'expiry')),
                        'try_unban returns %s with bans %r afterwards; required %s with %r (roles %s, banned %r, target %d)'
                        % (res, ids, want_res, want_ids, ''.join('PR'[x] for x in roles), banned, target),
                        {'roles': roles, 'bans': bj, 'ban_time': evs(bt), 'target': target},
